@@ -72,7 +72,8 @@ int main() {
       std::cout << mw << " " << rv << "\n";
       delete p;
     } else
-    if (cmd == "step") {
+    if (cmd == "step" || cmd == "stepn") {
+      unsigned nsteps = 1; if (cmd == "stepn") ls >> nsteps;
       unsigned pc, a, b, o; int trunc; ls >> pc >> a >> b >> o >> trunc;
       std::string inbytes; std::vector<std::pair<unsigned, unsigned>> mem; std::vector<unsigned> watch;
       std::string tok;
@@ -82,7 +83,7 @@ int main() {
         else if (tok == "in") { int c; ls >> c; inbytes.push_back((char)c); }
       }
       std::istringstream in(inbytes); std::ostringstream out;
-      auto *p = new Processor(in, out, 1);
+      auto *p = new Processor(in, out, nsteps);
       p->memory.fill(0);
       p->exitCode = 0;
       p->setTruncateInputs(trunc);
